@@ -6,6 +6,8 @@
 (*   inst[i]      the private registry of the i-th Validation created with *)
 (*                reset=True (set of custom rule names)                    *)
 (*   ver          version of the validated document (bumped by edits)      *)
+(* register_optional adds the library's own optional rules (repository     *)
+(* present, terminology check) to a private validation.                    *)
 (* Actions: default validation, creation of a custom validation, adding a  *)
 (* custom rule to it, running it, creating objects, setting cardinalities  *)
 (* (both run private validations internally), save and load.               *)
@@ -16,13 +18,13 @@ EXTENDS Naturals, Sequences, FiniteSets, TLC, Json
 CONSTANTS Depth, MaxInst
 VARIABLES hist, ninst, inst, ver
 Alphabet == {"default_validate", "doc_validate", "section_validate", "property_validate", "rerun_last", "report_last", "new_custom", "create_section", "create_property", "set_card", "save", "load"} \cup
-            {"register_" \o k : k \in {"section", "property"}} \cup {"run_custom"}
+            {"register_" \o k : k \in {"section", "property", "optional"}} \cup {"run_custom"}
 Init == hist = <<>> /\ ninst = 0 /\ inst = [i \in 1..MaxInst |-> {}] /\ ver = 0
 Do(a) ==
    /\ Len(hist) < Depth
    /\ hist' = Append(hist, a)
    /\ CASE a = "new_custom" -> ninst < MaxInst /\ ninst' = ninst + 1 /\ UNCHANGED <<inst, ver>>
-        [] a \in {"register_section", "register_property"} ->
+        [] a \in {"register_section", "register_property", "register_optional"} ->
               ninst > 0 /\ inst' = [inst EXCEPT ![ninst] = @ \cup {a}] /\ UNCHANGED <<ninst, ver>>
         [] a = "run_custom" -> ninst > 0 /\ UNCHANGED <<ninst, inst, ver>>
         [] a \in {"create_section", "create_property", "set_card"} -> ver' = ver + 1 /\ UNCHANGED <<ninst, inst>>
